@@ -35,7 +35,7 @@ REQUIRED_COUNTERS = [
     "accepted", "members.compared", "pos.declared", "pos.declared_renamed", "pos.pattern", "pos.additional",
     "pos.tuple_item", "pos.additional_item", "pos.list_item", "int_to_float", "int_kept_under_integer",
     "branch.first_accepting_checked", "branch.index0", "branch.index_gt0", "model_instances", "anon_objects",
-    "extras.default_or_notpassed", "access.attribute", "access.item", "families", "family.accepted_level1", "dsl_templates.empty_tuple", "repeat_after_caller_edit",
+    "shared_owners.ok", "extras.default_or_notpassed", "access.attribute", "access.item", "families", "family.accepted_level1", "dsl_templates.empty_tuple", "repeat_after_caller_edit",
 ]
 
 ANCHORS = [
@@ -577,9 +577,60 @@ def one_family(ctx, sut, fpm, idx):
     _ = fpm
 
 
+def shared_property_owners(ctx, sut, idx):
+    """One `Property` object declared by two owners under different Python names (with an explicit JSON name):
+    whichever owner validates, ITS declared name is the one the member is readable under."""
+    rng = ctx.rng
+    source = rng.choice(["n", "user-id", "class"])
+    shared = sut.Property(sut.Integer(), required=rng.random() < 0.5, source=source)
+    first_name, second_name = rng.sample(["first", "second", "user_id", "ident", "group_id"], k=2)
+    kind = idx % 3
+    try:
+        if kind == 0:
+            first = sut.Object.inline(f"OwnerA{idx}", properties={"lead": sut.Property(sut.String()), first_name: shared})
+            second = sut.Object.inline(f"OwnerB{idx}", properties={second_name: shared})
+        elif kind == 1:
+            first = sut.Element(properties={first_name: shared})
+            second = sut.Element(properties={second_name: shared, "tail": sut.Property(sut.String())})
+        else:
+            first = sut.Object.inline(f"OwnerA{idx}", properties={first_name: shared})
+            second = sut.Element(properties={second_name: shared})
+    except Exception as exc:  # pylint: disable=broad-except
+        ctx.count("shared_owners.build_failed." + type(exc).__name__)
+        return
+    case = {"shared_property": {"source": source, "names": [first_name, second_name], "kind": kind}}
+    for round_no in range(2):
+        for owner, name in ((first, first_name), (second, second_name), (first, first_name)):
+            value = {source: rng.randint(-5, 5), **({"lead": "x"} if kind == 0 and owner is first else {})}
+            ctx.evaluation()
+            ctx.count("shared_owners.calls")
+            outcome, result, exc = sut.call(owner, copy.deepcopy(value))
+            if outcome != "ok":
+                ctx.witness("result_incomplete_or_altered", {**case, "value": value},
+                            f"owner declaring {name!r} rejected {value!r}: {outcome} {exc!r}"[:300])
+                return
+            store = result._dict if isinstance(result, sut.Object) else result  # pylint: disable=protected-access
+            problems = []
+            if name not in store or store[name] != value[source]:
+                problems.append(f"member {source!r} is not readable under the owner's own name {name!r}: {dict(store)!r}")
+            other = second_name if name == first_name else first_name
+            if other in store:
+                problems.append(f"a member {other!r} (the OTHER owner's name) is in the result")
+            if isinstance(result, sut.Object) and getattr(result, name, None) != value[source]:
+                problems.append(f"attribute {name!r} does not hold the member")
+            if problems:
+                ctx.witness("result_incomplete_or_altered", {**case, "value": value, "round": round_no},
+                            "; ".join(problems)[:400])
+                return
+    ctx.count("shared_owners.ok")
+
+
 def run_shard(ctx):
     from vlib import fingerprint as fpm  # pylint: disable=import-outside-toplevel
     from vlib import sut  # pylint: disable=import-outside-toplevel
+
+    for idx in range(24):
+        shared_property_owners(ctx, sut, idx)
 
     for idx in range(ctx.params["schemas"]):
         one_schema(ctx, sut, fpm, idx)
@@ -593,6 +644,10 @@ def replay(case, ctx):
     from vlib import fingerprint as fpm  # pylint: disable=import-outside-toplevel
     from vlib import sut  # pylint: disable=import-outside-toplevel
 
+    if "shared_property" in case:
+        for idx in range(24):
+            shared_property_owners(ctx, sut, idx)
+        return
     if "spec" in case:
         from vlib import gen_dsl  # pylint: disable=import-outside-toplevel
 
